@@ -4,6 +4,8 @@ ENGINES = [
     {"name": "E3 schedule explorer", "path": "harness/sched/ + drivers/sched_driver.cpp", "serves_properties": ["C03"],
      "kind_free_text": "mock task runtime (GOMP ABI) + stateless explorer with state cache over (tasks created, tasks executed); real executor re-run on fresh objects per schedule; trace build with own __tsan_* hooks for footprint race check and frame-exact lifetime check"},
     {"name": "index driver", "path": "drivers/index_driver.cpp", "serves_properties": ["C11"], "kind_free_text": "exhaustive per-level enumeration of cells and groups through the public index API vs reference geometry"},
+    {"name": "E4 history search", "path": "drivers/hist_driver.cpp", "serves_properties": ["C12", "C13", "C17"], "kind_free_text": "BFS over operation histories replayed on fresh real trees, canonical state keys"},
+    {"name": "p2p driver", "path": "drivers/p2p_driver.cpp", "serves_properties": ["C20"], "kind_free_text": "count lattice x layouts vs long double"},
     {"name": "E6 runner", "path": "tools/check.py", "serves_properties": [], "kind_free_text": "builds drivers from /repo, runs slices on all cores, merges, applies known_findings.json, writes evidence and replays"},
 ]
 NOTES = "See DESIGN.md. All checks rebuild their drivers from /repo/src on every run; scratch output only under /verif/build."
@@ -34,5 +36,17 @@ CLAIMED["C11"] = {"engine": "index driver",
     "note": "trusted: harness/vf_ref.hpp (definitions: coordinates >> 1, Chebyshev distance, base-7/base-3 codes); Hilbert geometry is a known finding (D5)",
     "technique": "bounded-exhaustive enumeration of all cells/levels/groups against a reference model, under a watchdog"}
 
+def _hist(text, ref):
+    return {"engine": "E4 history search", "text": text, "design_ref": ref,
+            "note": "trusted: harness reference model and exact kernel; states are histories replayed on fresh real objects; bounded by depth / tree menu stated in the evidence",
+            "technique": "explicit-state breadth-first search over operation histories of the real objects with canonical state hashing (bounded depth, small alphabet)"}
+
+CLAIMED["C12"] = _hist("For each tree and upper level the graph of flag states is searched exhaustively, each transition being a real execute(flags) call; confluence per state, equality with the full run, write sets per flag and the upper-level bound are checked on every transition; all 112 complete partitions replayed.", "DESIGN.md section 5 C12")
+CLAIMED["C13"] = _hist("Breadth-first search over histories of move / rebuild / execute on small trees up to depth 4-5, differential oracle against a freshly built tree after every rebuild, exact multiplicity and potential after every execute.", "DESIGN.md section 5 C13")
+CLAIMED["C17"] = _hist("Per template instantiation and tree the export is compared with the inserted values at every point of a build/accumulate/move+rebuild history.", "DESIGN.md section 5 C17")
+CLAIMED["C20"] = {"engine": "p2p driver", "text": "Every pair of counts of the count lattice x separation scales x layout families x both types through all six entry points against a long double evaluation.", "design_ref": "DESIGN.md section 5 C20",
+    "note": "trusted: x87 long double as reference; tolerance 16(n+4)eps of the sum of absolute contributions; scalar path only (Inastemp absent)",
+    "technique": "bounded-exhaustive enumeration of argument shapes against an extended-precision reference"}
+
 _pending = "check not built yet in this round (planned, see DESIGN.md section 11); not claimed until it runs end to end"
-NOT_APPLICABLE = {p: _pending for p in ["C04", "C05", "C09", "C10", "C12", "C13", "C14", "C15", "C17", "C18", "C19", "C20"]}
+NOT_APPLICABLE = {p: _pending for p in ["C04", "C05", "C09", "C10", "C14", "C15", "C18", "C19"]}
